@@ -5,6 +5,8 @@ CONSTANTS
   MaxSend <- TraceMaxSend
   NFaultSteps <- TraceSteps
   RtDecodable = TRUE
+  Slow = {}
+  WaitGivesUp = FALSE
   MayExit = TRUE
 CONSTRAINT Progress
 POSTCONDITION Accepted
